@@ -327,19 +327,23 @@ def table(tier="quick"):
         exempt={"#1": "permutation indices"})
     # the plain mask multipliers (family FMaskMul: the mask is used as passed in; see known_findings.d/C18.json mask_multiplier_*):
     # every mask dtype class, all four data dtypes, both tenalg backends, the one-matrix / 1-D shortcuts
+    import os
+    # VERIF_C18_MASKMUL_CAST=1: compare against the skeleton of the candidate repair (mask cast into the context of the factors) - used to validate
+    # build/fix_candidates/C18_mask_multiplier.diff on a patched worktree; after the repair this becomes the default
+    MM = "FMaskMulCast" if os.environ.get("VERIF_C18_MASKMUL_CAST") else "FMaskMul"
     for mk in ("same", "bool", "int", "f64", "f32"):
         add("cp_to_tensor_mask" + ("" if mk == "same" else "_" + mk), "tensorly.cp_tensor.cp_to_tensor",
             lambda d, mk=mk: (lambda i=cpinit(d), m=d.mask(SH, mk): (cpt.cp_to_tensor(i, mask=m), cpt.cp_to_tensor((i[0], i[1][:1]), mask=m[:, 0, 0]), cpt.cp_to_tensor((None, i[1]), mask=m))),
-            fam="FMaskMul", mask=mk, dts=ALL3, slotmap={"#0": "out0", "#1": "out0", "#2": "out0"})
+            fam=MM, mask=mk, dts=ALL3, slotmap={"#0": "out0", "#1": "out0", "#2": "out0"})
         add("khatri_rao_mask_" + mk, "tensorly.tenalg.khatri_rao",
             lambda d, mk=mk: (lambda i=cpinit(d), m=d.mask(SH, mk): (tenalg.khatri_rao(i[1], mask=m), tenalg.khatri_rao(i[1][:1], mask=m[:, 0, 0]), tenalg.khatri_rao(i[1], weights=i[0], skip_matrix=1, mask=m[:, 0, :]),
                                                                      _einsum(lambda: tenalg.khatri_rao(i[1], mask=m)))),
-            fam="FMaskMul", mask=mk, dts=ALL3, slotmap={"#0": "out0", "#1": "out0", "#2": "out0", "#3": "out0"})
+            fam=MM, mask=mk, dts=ALL3, slotmap={"#0": "out0", "#1": "out0", "#2": "out0", "#3": "out0"})
         add("cp_lstsq_grad_mask_" + mk, "tensorly.cp_tensor.cp_lstsq_grad",
             lambda d, mk=mk: (lambda i=cpinit(d), X=d.arr(*SH), m=d.mask(SH, mk): cpt.cp_lstsq_grad(CPTensor(i), X, return_loss=True, mask=m)),
-            fam="FMaskMul", opts=dict(alt=True), mask=mk, dts=ALL3)
+            fam=MM, opts=dict(alt=True), mask=mk, dts=ALL3)
     add("cp_lstsq_grad_nomask", "tensorly.cp_tensor.cp_lstsq_grad",
-        lambda d: (lambda i=cpinit(d), X=d.arr(*SH): cpt.cp_lstsq_grad(CPTensor(i), X, return_loss=True)), fam="FMaskMul", opts=dict(alt=True), dts=ALL3)
+        lambda d: (lambda i=cpinit(d), X=d.arr(*SH): cpt.cp_lstsq_grad(CPTensor(i), X, return_loss=True)), fam=MM, opts=dict(alt=True), dts=ALL3)
     add("cp_to_unfolded_vec", "tensorly.cp_tensor.cp_to_vec", lambda d: (lambda i=cpinit(d): (cpt.cp_to_vec(i), cpt.cp_to_unfolded(i, 1))), fam="FPure", dts=ALL3)
     add("cp_mode_dot", "tensorly.cp_tensor.cp_mode_dot", lambda d: (lambda i=cpinit(d), Mx=d.arr(2, 3): cpt.cp_mode_dot(CPTensor(i), Mx, 1, copy=True)), fam="FPure", dts=ALL3)
     add("cp_norm", "tensorly.cp_tensor.cp_norm", lambda d: (lambda i=cpinit(d): cpt.cp_norm(i)), fam="FPure", dts=ALL3, real={""})
@@ -1119,6 +1123,8 @@ class Translator:
             x = a0 if base_expr is None else base_expr
             if x is not None and A in ("std", "var"):
                 return ("real", ("tofloat", x))      # real-valued also for complex input
+            if x is not None and d and len(d) > 1 and d[0] in MODULES and d[0] != "math" and weaklike(x, self.weakvars):
+                return ("leaf", "(LConst F64)")      # tl.sqrt(python float) is a NumPy float64 SCALAR: strong, widens single-precision arrays
             return ("tofloat", x) if x is not None else None
         if A == "index_update":
             tgt, val = (args + [None, None, None])[0], (args + [None, None, None])[2]
@@ -1791,6 +1797,7 @@ TR_TEMPLATES = [
     "{v} = tl.cumsum({a}, axis=0) / tl.tensor(tl.arange(3) + 1, **tl.context({b}))", "{v} = tl.cumsum({a}, axis=0) / (tl.arange(3) + 1)",
     "{v} = tl.copy({a})\n    {v} *= {b}", "{v} = tl.copy({a})\n    {v} /= np.float64(2.0)", "{v} = tl.sqrt(tl.abs({a}) / 3)\n    {v} += mask", "{v} = tl.sum({a})\n    {v} += tl.sum({b})",
     "{v} = tl.zeros((3,), **tl.context({a}))\n    {v} += tl.ones(3)", "{v} = 0.0\n    {v} += {a}", "{v} = tl.norm({a})\n    {v} *= np.float64(2.0)", "{v} = {a}[0:3]\n    {v} -= {b} * np.float64(0.5)",
+    "{v} = {a} * tl.sqrt(2.0)", "{v} = {a} + tl.exp(1) * {b}",
     "{v} = tl.transpose(tl.reshape({a}, (3, 1)))[0] + {b}", "{v} = tl.max({a}) * {b}", "{v} = tl.sort({a}, axis=0) + tl.flip({b}, axis=0)",
 ]
 
@@ -1951,6 +1958,12 @@ def dtype_predicate(t, data_dt, mask_dt, obs):
     bad = []
     for slot, dt in obs:
         if slot in t["exempt"]:
+            # the documented exceptions are exact, not a free pass: leverage-score distributions are ALWAYS float64, index / count outputs are integers
+            if "float64" in t["exempt"][slot]:
+                if dt != "float64":
+                    bad.append((slot, dt, "float64 (documented exception)"))
+            elif np.dtype(dt).kind not in "iu":
+                bad.append((slot, dt, "an integer dtype (documented exception: " + t["exempt"][slot] + ")"))
             continue
         if dt in exp:
             continue
@@ -2275,8 +2288,8 @@ def run(chk):
     for q in sorted(ex):
         r = ex[q]
         b = xbase.get(q)
-        if "error" in r or not b or not b["outs"] or base.get(q, 0) < 1:
-            continue
+        if "error" in r or not b or not b["outs"] or base.get(q, 0) < 1 or ".metrics." in q:
+            continue          # (metrics are real-valued by definition: a metric turning real for complex input is not a loss of context)
         if b["n_out"] != r["n_out"]:
             n_shape += 1      # the function returns a different number of arrays than at baseline: positions are not comparable
             chk.notes.append(f"function {q} now has {r['n_out']} array outputs (baseline {b['n_out']}): exact-dtype positions not judged")
@@ -2302,6 +2315,23 @@ def run(chk):
                              {"function": q, "level": lvl, "exact_output_positions": outs, "leaves": r["leaves"], "statements": [r["n_init"], r["n_loop"]]})
     chk.notes.append(f"source-level exact-dtype tie: {len(emeta)} functions with {sum(len(m[2]) for m in emeta)} outputs certified to have exactly the data's dtype "
                      f"in all four contexts; {n_shape} not judged (number of outputs changed)")
+    # ---- 4b'. the exact certification against this run's executions: an entry point all of whose outputs are certified exact must have
+    # returned only arrays of exactly the data's dtype in every complex-data run (mask absent or of the data's dtype)
+    allex = {q.rsplit(".", 1)[1] for q, b in xbase.items() if b["outs"] and len(b["outs"]) == b["n_out"] and not q.rsplit(".", 2)[1][:1].isupper()
+             and q in ex and (emeta and q in {m[0] for i, m in enumerate(emeta) if i not in efailing})}
+    n_x = 0
+    for m in meta:
+        if m[0] != "ep":
+            continue
+        _, t, data_dt, mask_dt, seed, obs, bad = m
+        if not data_dt.startswith("complex") or t["ep"].rsplit(".", 1)[1] not in allex or (mask_dt is not None and mask_dt != data_dt):
+            continue
+        n_x += 1
+        off = [(s_, d_) for s_, d_ in obs if d_ != data_dt and s_ not in t["exempt"]]
+        if off:
+            chk.disagreement("corr:C18 source-level exact-dtype certification of " + t["ep"] + " contradicted by an execution with complex data",
+                             {"config": t["name"], "dtype": data_dt, "mask_dtype": mask_dt, "observed": obs})
+    chk.notes.append(f"exact-dtype certification cross-checked against {n_x} complex-data executions of certified entry points")
     # ---- 4c. the documented exceptions are exactly the uncertified functions
     lvl0 = {q for q, l in base.items() if l == 0}
     if lvl0 != DOCUMENTED_F64:
